@@ -96,6 +96,18 @@ func (r *Run) Signature() string {
 	return hex.EncodeToString(r.h.Sum(nil))
 }
 
+// Sig64 is the first 64 bits of the signature.
+func (r *Run) Sig64() uint64 {
+	r.mu.Lock()
+	defer r.mu.Unlock()
+	b := r.h.Sum(nil)
+	var v uint64
+	for i := 0; i < 8; i++ {
+		v = v<<8 | uint64(b[i])
+	}
+	return v
+}
+
 func (r *Run) Trace() []string {
 	r.mu.Lock()
 	defer r.mu.Unlock()
